@@ -11,8 +11,6 @@ import (
 	"go/token"
 	"os"
 	"strconv"
-	"unicode"
-	"unicode/utf8"
 
 	"github.com/fatih/structtag"
 )
@@ -132,11 +130,8 @@ func (c *config) rewrite(node ast.Node) (ast.Node, error) {
 
 		// Now we make updates
 		for _, f := range x.Fields.List {
-			if c.excludePrivate {
-				r, _ := utf8.DecodeRuneInString(fieldName(f))
-				if unicode.IsLower(r) {
-					continue
-				}
+			if c.excludePrivate && !ast.IsExported(fieldName(f)) {
+				continue
 			}
 			if f.Tag == nil {
 				f.Tag = &ast.BasicLit{}
